@@ -25,3 +25,11 @@ H(id='C19_crc24', property='C19', src='C19_openpgp.cc', entry='h_crc24', tu=PGP,
   desc='CRC24Compute == bitwise polynomial division of RFC 4880 6.1', symbolic='byte string, all values', bounds='length <= 3')
 H(id='C19_scalar_time', property='C19', src='C19_openpgp.cc', entry='h_scalar_time', tu=PGP, unwind=6,
   desc='PacketScalarFourEncode / PacketTimeEncode big-endian layout', symbolic='all 2^32 values', bounds='-')
+
+# ------------------------------------------------------------------ C12 (OpenPGP leaf decoders)
+for _e, _n, _q, _t in (('h_subpacket_decode', 'subpacket', range(0, 9), range(0, 13)), ('h_body_extract', 'bodyextract', range(0, 7), range(0, 10)),
+                       ('h_string_decode', 'pktstring', range(0, 7), range(0, 10)), ('h_radix64_decode', 'radix64dec', range(0, 5), range(0, 8))):
+    H(id='C12_pgp_' + _n, property='C12', src='C12_openpgp.cc', entry=_e, tu=PGP, unwind=10, defines={'H_MAXLEN': 16}, full_checks=True,
+      desc='arbitrary bytes into %s: no out-of-bounds access, invalid iterator range, assert/abort, non-standard exception, non-termination' % _e[2:],
+      symbolic='every byte string of the slice length', bounds='input length %d..%d (quick) / ..%d (thorough), one query per length; default configuration macros' % (_q[0], _q[-1], _t[-1]),
+      slices=[{'H_LEN': n} for n in _q], tiers={'thorough': {'slices': [{'H_LEN': n} for n in _t]}})
